@@ -134,6 +134,8 @@ type interpreter struct {
 	inSummary int
 	fixedNow  int64
 	hasFixedNow bool
+	windowNow   value
+	hasWindowNow bool
 	fnCache map[*ssa.Function]*fnInfo
 }
 
